@@ -21,7 +21,8 @@ RULE = ("objects: IBAN, BIC and BBAN (several countries) built with validation o
 
 TEXTS = ["", "A", "a", "B", "AA", "0", "ß", "DE89370400440532013000", "DE89 3704 0044 0532 0130 00",
          "de89370400440532013000", "GB29NWBK60161331926819", "GENODEM1GLS", "GENODEM1", "genodem1gls",
-         "GENO DE M1 GLS", "370400440532013000", "Z", "DE89370400440532013001"]
+         "GENO DE M1 GLS", "370400440532013000", "Z", "DE89370400440532013001", "GENODEM1XXX",
+         "GENODEM1GL", "DE89370400440532013"]
 COMPS = reg.COMPONENTS
 
 
@@ -38,7 +39,7 @@ def build_values():
     for t in ["DE89370400440532013000", "GB29NWBK60161331926819", "de89 3704 0044 0532 0130 00"]:
         vals.append((f"IBAN:{t!r}", (lambda t=t: lib.IBAN(t))))
         vals.append((f"IBAN.bban:{t!r}", (lambda t=t: lib.IBAN(t).bban)))
-    for t in ["GENODEM1GLS", "GENODEM1", "geno de m1 gls"]:
+    for t in ["GENODEM1GLS", "GENODEM1", "geno de m1 gls", "GENODEM1XXX", "DEUTDEFF", "DEUTDEFFXXX"]:
         vals.append((f"BIC:{t!r}", (lambda t=t: lib.BIC(t))))
     for c in ("IS", "BR", "FR", "PL"):
         tx = bases.base_ibans(c, ["distinct"])[0][1]
@@ -156,11 +157,80 @@ def sort_shard(args):
     return part.done()
 
 
+def xproc_dump():
+    """Child under one hash seed: build every object, hash it (as a set / dict would), pickle all."""
+    import base64
+    import sys
+    vals = build_values()
+    objs = [(d, f()) for d, f in vals if not d.startswith("str:")]
+    for _, o in objs:
+        hash(o)
+        {o: 1}
+    sys.stdout.write("DUMP=" + base64.b64encode(pickle.dumps(objs)).decode() + "\n")
+
+
+def xproc_load():
+    """Child under another hash seed: unpickle and check string-value semantics of the copies."""
+    import base64
+    import json
+    import sys
+    objs = pickle.loads(base64.b64decode(sys.stdin.read().strip()[5:]))
+    fresh = dict(build_values())
+    bad = []
+    for d, o in objs:
+        s = str(o)
+        f = fresh[d]()
+        if hash(o) != hash(s) or hash(o) != hash(f):
+            bad.append([d, "hash differs from the string's after unpickling in another process"])
+        elif {s: 1}.get(o) != 1 or (f not in {o}) or not (o == f):
+            bad.append([d, "unpickled object is not found under its string / an equal object"])
+        elif describe(o) != describe(f):
+            bad.append([d, "unpickled object differs from a freshly built one"])
+    sys.stdout.write("LOAD=" + json.dumps({"n": len(objs), "bad": bad}) + "\n")
+
+
+def xproc_shard(args):
+    import json
+    import os
+    import subprocess
+    import sys
+    part = par.Part()
+    for seed_a, seed_b in (("101", "202"), ("0", "random")):
+        env = dict(os.environ, PYTHONHASHSEED=seed_a)
+        p1 = subprocess.run([sys.executable, "-c", "from mc.props.c16 import xproc_dump; xproc_dump()"],
+                            capture_output=True, text=True, env=env, cwd=str(report.VERIF), timeout=300)
+        line = [ln for ln in p1.stdout.splitlines() if ln.startswith("DUMP=")]
+        if p1.returncode != 0 or not line:
+            raise report.HarnessError("cross-process dump failed: " + p1.stderr[-800:])
+        env = dict(os.environ, PYTHONHASHSEED=seed_b)
+        p2 = subprocess.run([sys.executable, "-c", "from mc.props.c16 import xproc_load; xproc_load()"],
+                            input=line[-1], capture_output=True, text=True, env=env, cwd=str(report.VERIF),
+                            timeout=300)
+        out = [ln for ln in p2.stdout.splitlines() if ln.startswith("LOAD=")]
+        if p2.returncode != 0 or not out:
+            raise report.HarnessError("cross-process load failed: " + p2.stderr[-800:])
+        res = json.loads(out[-1][5:])
+        part["evals"] += res["n"]
+        for i in range(res["n"]):
+            part.seen.add(hash(("xproc", seed_a, seed_b, i)))
+        for d, what in res["bad"]:
+            part.violation(f"{what} [{d.split(':')[0]}]", {"kind": "c16xproc", "x": d, "hash_seeds": [seed_a, seed_b]},
+                           "string-value semantics", what)
+        part.stat("cross_process_pickle_runs")
+    return part.done()
+
+
 def shard(args):
+    if args[0] == "xproc":
+        return xproc_shard(args)
     return pairs_shard(args) if args[0] == "pairs" else sort_shard(args)
 
 
 def replay(case: dict) -> dict:
+    if case["kind"] == "c16xproc":
+        part = xproc_shard(("xproc", "quick"))
+        hit = [v for v in part["violations"] if v["case"]["x"] == case["x"]]
+        return {"ok": not hit, "observed": hit[0]["observed"] if hit else None}
     vals = dict(build_values())
     if case["kind"] == "c16pair":
         probs = pair_problems(vals[case["x"]](), vals[case["y"]]())
@@ -188,6 +258,7 @@ def main(tier: str) -> int:
         pool = [i for i, (d, _) in enumerate(vals) if any(k in d for k in (
             "'A'", "'a'", "'ß'", "'DE89370400440532013000'", "'de89370400440532013000'",
             "'GENODEM1GLS'", "'370400440532013000'"))][:16]
+    shards.append(("xproc", tier))
     trips = list(itertools.combinations(pool, 3))
     shards += [("sort", trips[i:i + 400], tier) for i in range(0, len(trips), 400)]
     par.run_shards(run, shard, shards)
